@@ -68,3 +68,41 @@ Proof. apply index_of_nth_error. Qed.
 
 Theorem excluded_process_is_not_a_node procs ep p : In p (shown_processes procs ep) -> ~ In (fst p) ep.
 Proof. intros H. unfold shown_processes in H. apply filter_In in H. destruct H as [_ H]. apply negb_true_iff, memb_false in H. exact H. Qed.
+
+(* one CSV file per exported stock quantity when the sanitised stock names are distinct *)
+Definition quantity_tags (with_in_out : bool) : list (list nat) :=
+  [ [115;116;111;99;107] ] ++ (if with_in_out then [ [105;110;102;108;111;119]; [111;117;116;102;108;111;119] ] else []).
+
+Lemma stock_file_inj s1 s2 k1 k2 : In k1 (quantity_tags true) -> In k2 (quantity_tags true) ->
+  s1 ++ [95] ++ k1 ++ csv_suffix = s2 ++ [95] ++ k2 ++ csv_suffix -> s1 = s2 /\ k1 = k2.
+Proof.
+  intros H1 H2 E. apply (f_equal (@rev nat)) in E. rewrite !rev_app_distr in E.
+  simpl in H1, H2.
+  destruct H1 as [<-|[<-|[<-|[]]]], H2 as [<-|[<-|[<-|[]]]]; simpl in E; try discriminate;
+    (injection E as E; apply (f_equal (@rev nat)) in E; rewrite !rev_involutive in E; split; [exact E | reflexivity]).
+Qed.
+
+Theorem one_file_per_stock_quantity b names :
+  NoDup (map sanitize names) ->
+  NoDup (stock_files b names) /\ length (stock_files b names) = (if b then 3 else 1) * length names.
+Proof.
+  intros H. unfold stock_files. fold (quantity_tags b).
+  assert (Tn : NoDup (quantity_tags b)).
+  { destruct b; simpl; repeat constructor; simpl; intuition discriminate. }
+  assert (T : forall k, In k (quantity_tags b) -> In k (quantity_tags true)).
+  { intros k Hk. destruct b; [exact Hk|]. simpl in Hk. destruct Hk as [<-|[]]. left. reflexivity. }
+  assert (Tl : length (quantity_tags b) = if b then 3 else 1) by (destruct b; reflexivity).
+  set (tags := quantity_tags b) in *. clearbody tags. split.
+  - induction names as [|n names IH]; cbn [flat_map]; [constructor|].
+    cbn [map] in H. inversion H as [|? ? Hn Hd]; subst.
+    apply NoDup_app_intro.
+    + apply FinFun.Injective_map_NoDup; [|exact Tn].
+      intros a c E. apply app_inv_head in E. apply app_inv_head in E. apply app_inv_tail in E. exact E.
+    + apply IH. exact Hd.
+    + intros f Hf1 Hf2. apply in_map_iff in Hf1. destruct Hf1 as (k1 & <- & Hk1).
+      apply in_flat_map in Hf2. destruct Hf2 as (n' & Hn' & Hf2). apply in_map_iff in Hf2. destruct Hf2 as (k2 & E & Hk2).
+      destruct (stock_file_inj _ _ _ _ (T _ Hk2) (T _ Hk1) E) as [Es _].
+      apply Hn. rewrite <- Es. apply in_map. exact Hn'.
+  - clear H. induction names as [|n names IH]; cbn [flat_map length]; [lia|].
+    rewrite app_length, map_length, IH, Tl. destruct b; lia.
+Qed.
